@@ -1833,6 +1833,172 @@ def D41_complex_output_flagged_nchw():
     return True, "flagged complex output is the NCHW view of the plain one"
 
 
+def C07_unique_history_family():
+    """C07 (bounded): unique=True instances are compared by content at every export.  One model with two content-equal
+    instances is exported, then one instance's weights are updated in place and it is exported again, then a static
+    attribute of the other is reassigned and it is exported a third time; the same for a freshly built model.  After every
+    export the model agrees with JAX and two call nodes share a definition only while the instances are content-equal."""
+    jax, jnp = _jax()
+    import jax2onnx
+    try:
+        from witnesses import _fnmods as F
+    except ImportError:
+        import _fnmods as F
+    x = np.asarray([[0.5, -1.0, 2.0], [1.5, 0.25, -0.75]], np.float32)
+
+    def export_and_compare(model, what, expect_shared):
+        m = jax2onnx.to_onnx(model, [(2, 3)], model_name="c07hist")
+        got = _run(m, [x])[0][0]
+        want = np.asarray(model(jnp.asarray(x)))
+        if got.shape != want.shape or not np.allclose(got, want, rtol=1e-5, atol=1e-6):
+            return f"{what}: exported model gives {got.ravel()[:3]}, JAX {want.ravel()[:3]}"
+        calls = [(n.domain, n.op_type) for n in m.graph.node if n.domain.startswith("custom")]
+        if len(calls) != 2:
+            return None
+        shared = calls[0] == calls[1]
+        if shared and not expect_shared:
+            return f"{what}: both call nodes refer to {calls[0]} although the instances differ"
+        return None
+    n = 0
+    for fresh in (False, True):
+        t = F.Tower()
+        steps = [("two content-equal instances", None, True),
+                 ("after an in-place update of b's weights", lambda t_: setattr(t_.b.w, "value", jnp.asarray([0.5, -2.0, 4.0], jnp.float32)), False),
+                 ("after reassigning a's static attribute", lambda t_: setattr(t_.a, "k", 3.0), False),
+                 ("after making both equal again", lambda t_: (setattr(t_.a, "k", 1.0), setattr(t_.b.w, "value", jnp.asarray([1.0, 2.0, 3.0], jnp.float32))), True)]
+        for what, mutate, expect_shared in (steps[1:] if fresh else steps):
+            if mutate is not None:
+                mutate(t)
+            try:
+                bad = export_and_compare(t, what + (" (never exported before)" if fresh else ""), expect_shared)
+            except Exception as e:
+                return None, f"{what}: export or run raised {type(e).__name__}: {str(e)[:120]}"
+            if bad:
+                return False, bad
+            n += 1
+            if fresh:
+                break
+    return True, f"{n} exports in one process agree with JAX and share definitions only between content-equal instances"
+
+
+def _typed_for_declared_opset(model):
+    """(ok, why): onnx.checker with full checks (operator signatures incl. type constraints at the declared opset)"""
+    import onnx
+    try:
+        onnx.checker.check_model(model, full_check=True)
+    except Exception as e:
+        return False, str(e).strip().replace("\n", " ")[:260]
+    return True, "ok"
+
+
+def C11_type_constraints_family(only_int8=False):
+    """C11 (bounded): element types are part of an operator's signature.  jnp.arange / lax.iota / jnp.linspace with result
+    types float16, bfloat16, float32, int32, int64 (static and traced bounds) at every opset from 21 to the newest the installed
+    onnx defines: the model is refused loudly or passes onnx.checker (full check: type constraints of the declared opset)."""
+    jax, jnp = _jax()
+    import onnx
+    top = onnx.defs.onnx_opset_version()
+    progs = []
+    if only_int8:
+        progs.append(("jnp.arange(stop, dtype=int8), traced stop", lambda stop: jnp.arange(stop, dtype=jnp.int8), [jax.ShapeDtypeStruct((), jnp.int32)]))
+        progs.append(("jnp.arange(5, dtype=uint8) + x", lambda x: jnp.arange(5, dtype=jnp.uint8) + x, [jax.ShapeDtypeStruct((5,), jnp.uint8)]))
+    else:
+        for dt in (jnp.float16, jnp.bfloat16, jnp.float32, jnp.int32, jnp.int64):
+            nm = np.dtype(dt).name
+            progs.append((f"jnp.arange(stop, dtype={nm}), traced stop", (lambda d: lambda stop: jnp.arange(stop, dtype=d))(dt), [jax.ShapeDtypeStruct((), jnp.int32)]))
+            progs.append((f"jnp.arange(6, dtype={nm}) * x", (lambda d: lambda x: jnp.arange(6, dtype=d) * x)(dt), [jax.ShapeDtypeStruct((6,), dt)]))
+            progs.append((f"lax.iota({nm}, 7) + x", (lambda d: lambda x: jax.lax.iota(d, 7) + x)(dt), [jax.ShapeDtypeStruct((7,), dt)]))
+        progs.append(("jnp.linspace(0, 1, 5, dtype=float16) + x", lambda x: jnp.linspace(0.0, 1.0, 5, dtype=jnp.float16) + x, [jax.ShapeDtypeStruct((5,), jnp.float16)]))
+    n = loud = 0
+    for what, fn, spec in progs:
+        for opset in range(21, top + 1):
+            try:
+                m = _export(fn, spec, opset=opset)
+            except Exception:
+                loud += 1
+                continue
+            ok, why = _typed_for_declared_opset(m)
+            if not ok:
+                return False, f"{what} at opset {opset}: {why}"
+            n += 1
+    if n == 0:
+        return None, "nothing could be exported"
+    return True, f"{n} models type-check at their declared opset ({loud} exports refused loudly)"
+
+
+def D43_nnx_attention_is_causal_not_ignored():
+    """C19: nnx.dot_product_attention(q, k, v, is_causal=True) is rejected or exported with the causal mask"""
+    jax, jnp = _jax()
+    from flax import nnx
+    import jax2onnx
+    rng = np.random.default_rng(0)
+    q, k, v = (rng.standard_normal((1, 4, 2, 8)).astype(np.float32) for _ in range(3))
+    for what, kw in (("is_causal=True", {"is_causal": True}), ("is_causal=False", {"is_causal": False})):
+        fn = (lambda kw_: lambda a, b, c: nnx.dot_product_attention(a, b, c, **kw_))(kw)
+        try:
+            want = np.asarray(fn(jnp.asarray(q), jnp.asarray(k), jnp.asarray(v)))
+        except Exception as e:
+            return None, f"eager call with {what} raises {type(e).__name__}"
+        try:
+            m = jax2onnx.to_onnx(fn, [q.shape, k.shape, v.shape], model_name="d43")
+        except Exception as e:
+            continue      # loud
+        got = _run(m, [q, k, v])[0][0]
+        if got.shape != want.shape or not np.allclose(got, want, rtol=1e-4, atol=1e-5):
+            return False, f"nnx.dot_product_attention(q, k, v, {what}): exported model differs from eager flax by {float(np.max(np.abs(got - want))):.3g} (the argument is ignored)"
+    return True, "is_causal is honoured or rejected"
+
+
+def C16_returned_value_arity_family():
+    """C16: output_binding.bind_returned_lowering_values on stub contexts: 1..3 output variables, every subset of them already
+    bound to a connected value, 0..4 returned values (as a value, a tuple or a list).  A number of returned values that is
+    neither one per output variable nor one per still unbound output variable must raise; otherwise every variable that was
+    unbound is bound to the value at its position."""
+    import itertools
+    import types
+    import onnx_ir as ir
+    from jax2onnx.converter import output_binding as ob
+
+    class Var:
+        pass
+    n = 0
+    for n_out in (1, 2, 3):
+        for pre in itertools.product((False, True), repeat=n_out):
+            for n_ret in range(0, 5):
+                for as_list in (False, True):
+                    outvars = [Var() for _ in range(n_out)]
+                    builder = types.SimpleNamespace(_var2val={}, inputs=[], initializers=[], nodes=[])
+                    ctx = types.SimpleNamespace(builder=builder)
+                    ctx.bind_value_for_var = lambda var, value, b=builder: b._var2val.__setitem__(var, value)
+                    for k, (v_, bound) in enumerate(zip(outvars, pre)):
+                        if bound:
+                            val = ir.Value(name=f"pre{k}")
+                            builder._var2val[v_] = val
+                            builder.inputs.append(val)
+                    rets = [ir.Value(name=f"r{k}") for k in range(n_ret)]
+                    result = None if n_ret == 0 and not as_list else (rets[0] if n_ret == 1 and not as_list else (list(rets) if as_list else tuple(rets)))
+                    unbound = [k for k, b_ in enumerate(pre) if not b_]
+                    what = f"{n_out} outvars, already bound {list(pre)}, {n_ret} returned values ({type(result).__name__})"
+                    eqn = types.SimpleNamespace(outvars=outvars)
+                    try:
+                        ob.bind_returned_lowering_values(ctx, eqn, result, primitive_name="stub")
+                        raised = None
+                    except (RuntimeError, TypeError) as e:
+                        raised = e
+                    n += 1
+                    ok_arity = (not unbound) or result is None or n_ret == n_out or n_ret == len(unbound)
+                    if raised is None and not ok_arity:
+                        return False, f"{what}: accepted, although the values can be matched neither to all output variables nor to the unbound ones"
+                    if raised is not None and ok_arity and isinstance(raised, RuntimeError):
+                        return False, f"{what}: rejected ({raised})"
+                    if raised is None and unbound and result is not None:
+                        for j, k in enumerate(unbound):
+                            want = rets[k] if n_ret == n_out else rets[j]
+                            if builder._var2val.get(outvars[k]) is not want:
+                                return False, f"{what}: output variable {k} is not bound to the value at its position"
+    return True, f"{n} (outvars, bound subset, returned values) cases handled as the lowering contract requires"
+
+
 def _scope_walk(model):
     """(ok, why): every value is defined before it is read, in its own graph or an enclosing one; function bodies read only their inputs"""
     def walk(g, outer, where):
@@ -1965,6 +2131,10 @@ ALL = {
     "C09_builder_payload_family": C09_builder_payload_family,
     "D39": D39_plugin_import_rebinds_jnp_cumsum,
     "D40": D40_concatenate_along_a_symbolic_axis_declares_the_sum, "D41": D41_complex_output_flagged_nchw,
+    "C07_unique_history_family": C07_unique_history_family,
+    "C11_type_constraints_family": C11_type_constraints_family, "D42": lambda: C11_type_constraints_family(only_int8=True),
+    "D43": D43_nnx_attention_is_causal_not_ignored,
+    "C16_returned_value_arity_family": C16_returned_value_arity_family,
     "C13_retrace_family": C13_retrace_family, "D36": D36_jit_helper_keeps_working_after_conversion,
     "C13_rebinding_between_conversions": C13_rebinding_between_conversions,
     "D1": D1_max_nonscalar_side_operand,
